@@ -72,7 +72,7 @@ Proof. intros ms H. exact (compatible_names_have_their_own_constant _ (accepted_
 Check c18_reply_table_accepted_iff.
 
 (* Non-vacuity: a valid table is accepted, its one-edit neighbours are rejected *)
-Definition fld (n t : string) (d : option data_params) (p : bool) : rfield := {| rf_name := n; rf_ty := t; rf_data := d; rf_payload := p |}.
+Definition fld (n t : string) (d : option data_params) (p : bool) : rfield := {| rf_name := n; rf_ty := t; rf_data := d; rf_payload := p; rf_bad := false |}.
 Definition m_ok : rmethod := {| rm_name := "on_ok"; rm_on := ROSuccess; rm_handlers := ["h"]; rm_fields := [fld "p" "u32" None false] |}.
 Definition m_err : rmethod := {| rm_name := "on_err"; rm_on := ROError; rm_handlers := ["h"]; rm_fields := [fld "error" "String" None false; fld "p" "u32" None false] |}.
 Definition m_err_bad : rmethod := {| rm_name := "on_err"; rm_on := ROError; rm_handlers := ["h"]; rm_fields := [fld "error" "String" None false; fld "p" "u64" None false] |}.
